@@ -136,6 +136,9 @@ func ruleX13(c *Ctx) {
 						if !ok {
 							why, ok = lengthGuarded(p, fd, l.pos, l.over, ie.X)
 						}
+						if !ok {
+							why, ok = inLoopGuard(l.body, ie, id.Name, bTxt)
+						}
 						x13Cache[ie.Lbrack] = x13Verdict{ok, why, aTxt}
 						if ok {
 							c.ok("X13", key, c.L.Pos(ie.Pos()), why)
@@ -566,6 +569,16 @@ func ruleR13(c *Ctx) {
 							if m := c.L.SSA().LookupMethod(t, callee.Pkg.Pkg, "LookupMacro"); m != nil && m.Synthetic == "" && hasIf(m) {
 								good = true
 								why = "wrapped by " + shortName(callee) + "; " + shortName(m) + " filters the name"
+							}
+						}
+						// every expansion adds one mask: the wrapper returns, on every path, a new
+						// struct holding its own env argument (masks nest, so each name on the
+						// expansion path stays hidden); re-using an existing mask hides only the
+						// innermost name and a two-name cycle recurses for ever
+						if good {
+							if bad := notAFreshWrapper(callee); bad != "" {
+								good = false
+								why = shortName(callee) + " " + bad
 							}
 						}
 					}
@@ -1080,6 +1093,27 @@ func ruleL19(c *Ctx) {
 		c.check(bad == "", "L19", "main|source text reaches the parser unchanged", c.L.Pos(instrPos(ci)), "between the file read and the parser the text passes through "+bad)
 	})
 	c.check(n == 1, "L19", "main|gen.Parse call (SSA)", c.L.Pos(f.Pos()), fmt.Sprintf("%d calls", n))
+	// the reader returns the decoder's output on every successful path
+	if ra := c.L.SSAFunc("cmd/gosk", "readAssets"); ra == nil {
+		c.anchorMissing("L19", "cmd/gosk.readAssets")
+	} else {
+		rn := 0
+		for _, b := range ra.Blocks {
+			for _, in := range b.Instrs {
+				r, ok := in.(*ssa.Return)
+				if !ok || len(r.Results) != 2 {
+					continue
+				}
+				if k, ok := r.Results[0].(*ssa.Const); ok && k.Value != nil && k.Value.String() == `""` {
+					continue // error path
+				}
+				rn++
+				decoded := dependsOnDecoder(r.Results[0], map[ssa.Value]bool{}, 0)
+				c.check(decoded, "L19", fmt.Sprintf("readAssets|return#%d is the decoder's output", rn), c.L.Pos(instrPos(in)), "a path returns text that did not go through the charset decoder (Shift_JIS sources reach the parser raw on that path)")
+			}
+		}
+		c.check(rn >= 1, "L19", "readAssets|returns found", c.L.Pos(ra.Pos()), fmt.Sprintf("%d", rn))
+	}
 	c.floor("L19", 4)
 }
 
@@ -1197,4 +1231,233 @@ func ruleB15(c *Ctx) {
 		})
 	}
 	c.ok("B15", "binary searches scanned", "", fmt.Sprintf("%d sites", n))
+}
+
+
+// inLoopGuard: the index expression sits under `i < len(B)` — the condition of an enclosing if,
+// or the left operand of the && it is the right operand of.
+func inLoopGuard(body ast.Node, ie *ast.IndexExpr, idx, bTxt string) (string, bool) {
+	isGuard := func(e ast.Expr) bool {
+		found := false
+		ast.Inspect(e, func(n ast.Node) bool {
+			be, ok := n.(*ast.BinaryExpr)
+			if !ok {
+				return true
+			}
+			if be.Op == token.LOR {
+				return false
+			}
+			var i, l ast.Expr
+			switch be.Op {
+			case token.LSS:
+				i, l = be.X, be.Y
+			case token.GTR:
+				i, l = be.Y, be.X
+			default:
+				return true
+			}
+			if id, ok := i.(*ast.Ident); ok && id.Name == idx {
+				if call, ok := l.(*ast.CallExpr); ok && len(call.Args) == 1 {
+					if fn, ok := call.Fun.(*ast.Ident); ok && fn.Name == "len" && types.ExprString(call.Args[0]) == bTxt {
+						found = true
+					}
+				}
+			}
+			return true
+		})
+		return found
+	}
+	ok := false
+	var stack []ast.Node
+	ast.Inspect(body, func(n ast.Node) bool {
+		if n == nil {
+			stack = stack[:len(stack)-1]
+			return true
+		}
+		stack = append(stack, n)
+		if n != ast.Node(ie) {
+			return true
+		}
+		for k := len(stack) - 2; k >= 0; k-- {
+			switch a := stack[k].(type) {
+			case *ast.IfStmt:
+				if ie.Pos() >= a.Body.Pos() && ie.End() <= a.Body.End() && isGuard(a.Cond) {
+					ok = true
+				}
+				if ie.Pos() >= a.Cond.Pos() && ie.End() <= a.Cond.End() {
+					// inside the condition itself: handled by the && case below
+				}
+			case *ast.BinaryExpr:
+				if a.Op == token.LAND && ie.Pos() >= a.Y.Pos() && isGuard(a.X) {
+					ok = true
+				}
+			}
+		}
+		return true
+	})
+	if ok {
+		return "guarded by `" + idx + " < len(" + bTxt + ")` inside the loop", true
+	}
+	return "", false
+}
+
+
+// notAFreshWrapper: "" when every return of f is MakeInterface(struct literal) whose fields are
+// stored from f's own parameters (in particular the wrapped environment is parameter 0).
+func notAFreshWrapper(f *ssa.Function) string {
+	for _, b := range f.Blocks {
+		for _, in := range b.Instrs {
+			r, ok := in.(*ssa.Return)
+			if !ok || len(r.Results) != 1 {
+				continue
+			}
+			mi, ok := r.Results[0].(*ssa.MakeInterface)
+			if !ok {
+				return "returns something that is not a new wrapper on some path"
+			}
+			load, ok := mi.X.(*ssa.UnOp)
+			if !ok || load.Op != token.MUL {
+				return "returns a value that is not a freshly built struct on some path"
+			}
+			a, ok := load.X.(*ssa.Alloc)
+			if !ok {
+				return "returns a value that is not a freshly built struct on some path"
+			}
+			wrapsParam := false
+			for _, ref := range *a.Referrers() {
+				switch x := ref.(type) {
+				case *ssa.Store:
+					if x.Addr == a {
+						return "copies an existing wrapper and changes it instead of nesting a new one (only the innermost name stays hidden)"
+					}
+				case *ssa.FieldAddr:
+					for _, fr := range *x.Referrers() {
+						if st, ok := fr.(*ssa.Store); ok && st.Addr == x {
+							if prm, ok := st.Val.(*ssa.Parameter); ok && prm == f.Params[0] {
+								wrapsParam = true
+							}
+						}
+					}
+				}
+			}
+			if !wrapsParam {
+				return "builds a wrapper that does not hold its own environment argument"
+			}
+		}
+	}
+	return ""
+}
+
+
+func sliceHasCall(v ssa.Value, name string, seen map[ssa.Value]bool, depth int) bool {
+	if v == nil || seen[v] || depth > 30 {
+		return false
+	}
+	seen[v] = true
+	if call, ok := v.(*ssa.Call); ok && calleeName(call.Common()) == name {
+		return true
+	}
+	switch x := v.(type) {
+	case *ssa.Alloc:
+		for _, r := range *x.Referrers() {
+			if st, ok := r.(*ssa.Store); ok && st.Addr == x && sliceHasCall(st.Val, name, seen, depth+1) {
+				return true
+			}
+		}
+		return false
+	case *ssa.Phi:
+		// every non-nil edge must carry the call
+		any := false
+		for _, e := range x.Edges {
+			if k, ok := e.(*ssa.Const); ok && k.IsNil() {
+				continue
+			}
+			if !sliceHasCall(e, name, seen, depth+1) {
+				return false
+			}
+			any = true
+		}
+		return any
+	case ssa.Instruction:
+		for _, op := range x.Operands(nil) {
+			if op != nil && *op != nil && sliceHasCall(*op, name, seen, depth+1) {
+				return true
+			}
+		}
+	}
+	return false
+}
+
+
+// dependsOnDecoder: the value is data-dependent on a call into golang.org/x/text or
+// golang.org/x/net/html/charset — directly, or through a local buffer whose address was handed
+// to such a call (transform.NewWriter(&buf, …) … buf.Bytes()). How the decoder is driven is not
+// prescribed.
+func dependsOnDecoder(v ssa.Value, seen map[ssa.Value]bool, depth int) bool {
+	if v == nil || seen[v] || depth > 40 {
+		return false
+	}
+	seen[v] = true
+	isDecoderCall := func(cc *ssa.CallCommon) bool {
+		n := calleeOrDyn(cc)
+		return strings.Contains(n, "golang.org/x/text/") || strings.Contains(n, "golang.org/x/net/html/charset")
+	}
+	switch x := v.(type) {
+	case *ssa.Call:
+		if isDecoderCall(x.Common()) {
+			return true
+		}
+		if x.Call.IsInvoke() {
+			if dependsOnDecoder(x.Call.Value, seen, depth+1) {
+				return true
+			}
+		}
+		for _, a := range x.Call.Args {
+			if dependsOnDecoder(a, seen, depth+1) {
+				return true
+			}
+		}
+		return false
+	case *ssa.Alloc:
+		for _, r := range *x.Referrers() {
+			switch y := r.(type) {
+			case *ssa.Store:
+				if y.Addr == x && dependsOnDecoder(y.Val, seen, depth+1) {
+					return true
+				}
+			case ssa.CallInstruction:
+				if isDecoderCall(y.Common()) {
+					return true
+				}
+			case *ssa.MakeInterface:
+				for _, rr := range *y.Referrers() {
+					if ci, ok := rr.(ssa.CallInstruction); ok && isDecoderCall(ci.Common()) {
+						return true
+					}
+				}
+			}
+		}
+		return false
+	case *ssa.Phi:
+		any := false
+		for _, e := range x.Edges {
+			if k, ok := e.(*ssa.Const); ok && k.IsNil() {
+				continue
+			}
+			if !dependsOnDecoder(e, seen, depth+1) {
+				return false
+			}
+			any = true
+		}
+		return any
+	case *ssa.Extract:
+		return dependsOnDecoder(x.Tuple, seen, depth+1)
+	case ssa.Instruction:
+		for _, op := range x.Operands(nil) {
+			if op != nil && *op != nil && dependsOnDecoder(*op, seen, depth+1) {
+				return true
+			}
+		}
+	}
+	return false
 }
